@@ -18,7 +18,7 @@ import (
 )
 
 func main() {
-	Main(map[string]Runner{"store": runStore, "reorg": runReorg, "crash": runCrash, "mem": runMem})
+	Main(map[string]Runner{"store": runStore, "reorg": runReorg, "crash": runCrash, "mem": runMem, "deep": runDeep})
 }
 
 // ---- commits / transactions
@@ -303,6 +303,7 @@ type seqRun struct {
 	past       []types.HashHeight // every id ever committed (also abandoned ones)
 	nview      int                // views are numbered in order of creation, numbers are never reused
 	memMode    bool
+	deep       bool
 }
 
 func (s *seqRun) op(o interface{}, a interface{}) {
@@ -425,6 +426,9 @@ func (s *seqRun) doGet(slot int) {
 	default:
 		id = s.r.chain[s.rng.Intn(len(s.r.chain))]
 	}
+	if s.deep && s.rng.Intn(2) == 0 && len(s.r.chain) > 6 {
+		id = s.r.chain[1+s.rng.Intn(5)]
+	}
 	v := s.m.Get(id)
 	kind := int64(1)
 	if v == nil {
@@ -441,6 +445,36 @@ func (s *seqRun) doGet(slot int) {
 		s.tag["historical-view"] = true
 	}
 	s.views[slot] = &rview{v: v, base: s.r.states[id], local: map[string][]byte{}}
+}
+
+// open a view at id and scan it completely
+func (s *seqRun) scanAt(id types.HashHeight) {
+	s.nview++
+	v := s.m.Get(id)
+	kind := int64(1)
+	if v == nil {
+		kind = 0
+	}
+	s.op(Con("OGet", I64(int64(s.nview)), idT(id)), Con("AKind", I64(kind)))
+	s.out.Oracle((v != nil) == s.r.onChain(id), "get-availability", M{"id": fmt.Sprint(id)})
+	if v == nil {
+		return
+	}
+	rv := &rview{v: v, base: s.r.states[id], local: map[string][]byte{}}
+	s.views[s.nview] = rv
+	it := v.NewIterator(nil)
+	l := Lst()
+	var got bytes.Buffer
+	for it.Next() {
+		if it.Value() == nil {
+			continue
+		}
+		l = append(l, Tup(Byt(it.Key()), Byt(canonVal(it.Key(), it.Value()))))
+		fmt.Fprintf(&got, "%x=%x;", it.Key(), it.Value())
+	}
+	it.Release()
+	s.op(Con("OVScan", I64(int64(s.nview)), Byt(nil)), Con("AScan", l))
+	s.out.Oracle(got.String() == refDump(rv.content()), "view-scan-exact", M{"id": fmt.Sprint(id), "got": got.String(), "want": refDump(rv.content())})
 }
 
 func (s *seqRun) pickSlot() (int, *rview) {
@@ -637,6 +671,14 @@ func runSeq(rng *rand.Rand, out *Out, steps int, mode string) {
 			out.Oracle(false, "store-panic", M{"panic": fmt.Sprint(r), "ops_so_far": len(s.ops)})
 		}
 	}()
+	if mode == "deep" {
+		// a chain longer than the cache-distance threshold (360): views of the oldest commits go to the second cache
+		s.deep = true
+		for i := 0; i < 368+rng.Intn(8); i++ {
+			s.doAdd(false)
+		}
+		s.tag["deep-chain"] = true
+	}
 	for i := 0; i < steps; i++ {
 		x := rng.Intn(100)
 		switch {
@@ -687,6 +729,21 @@ func runSeq(rng *rand.Rand, out *Out, steps int, mode string) {
 			}
 		}
 	}
+	if mode == "deep" {
+		// view of an old commit, a switch of the top of the chain, the same view again: full scans
+		for round := 0; round < 3 && len(s.r.chain) > 8; round++ {
+			id := s.r.chain[1+rng.Intn(5)]
+			s.scanAt(id)
+			k := 1 + rng.Intn(3)
+			for j := 0; j < k; j++ {
+				s.doPop()
+			}
+			for j := 0; j < k+1; j++ {
+				s.doAdd(false)
+			}
+			s.scanAt(id)
+		}
+	}
 	tags := make([]string, 0, len(s.tag))
 	for t := range s.tag {
 		tags = append(tags, t)
@@ -705,6 +762,11 @@ func runSeq(rng *rand.Rand, out *Out, steps int, mode string) {
 func runStore(rng *rand.Rand, n int, out *Out, _ []string) {
 	for i := 0; i < n; i++ {
 		runSeq(rng, out, 40+rng.Intn(40), "store")
+	}
+}
+func runDeep(rng *rand.Rand, n int, out *Out, _ []string) {
+	for i := 0; i < n; i++ {
+		runSeq(rng, out, 40+rng.Intn(30), "deep")
 	}
 }
 func runReorg(rng *rand.Rand, n int, out *Out, _ []string) {
